@@ -26,6 +26,7 @@ func registerIntrinsics(e *Engine) {
 	registerScanner(e)
 	registerJSON(e)
 	registerSort(e)
+	registerHash(e)
 	registerMisc2(e)
 	for _, n := range []string{"String", "Int64", "Bool", "Int", "StringValue", "Int64Value", "BoolValue"} {
 		allowExecNames["github.com/go-openapi/swag."+n] = true
@@ -399,6 +400,27 @@ func registerHarness(e *Engine) {
 			panic(unsupported("vfCrashable: body is a forking intrinsic"))
 		}
 		return nil
+	}
+	// vfJSON(v) string: an opaque payload token registered with the object it encodes
+	e.Intr["harness.vfJSON"] = func(c *Call) []*State {
+		n := 0
+		for k := range c.St.Ghost {
+			if strings.HasPrefix(k, "jsonobj:") {
+				n++
+			}
+		}
+		tok := StrC(fmt.Sprintf("{\"json\":%d}", n))
+		v := c.Args[0]
+		if iv, ok := v.(Iface); ok {
+			v = iv.V
+		}
+		c.St.Ghost["jsonobj:"+tok.S] = v
+		return c.Return(tok)
+	}
+	// vfSock(addr, live, timeout, payload): state of the unix socket at addr
+	e.Intr["harness.vfSock"] = func(c *Call) []*State {
+		c.St.Ghost["sock:"+c.constStr(0)] = Tuple{c.Args[1], c.Args[2], c.Args[3]}
+		return c.Return(nil)
 	}
 	e.Intr["harness.vfNative"] = func(c *Call) []*State { return c.Return(False) }
 	e.Intr["harness.vfSetUnwind"] = func(c *Call) []*State { return c.Return(nil) }
